@@ -422,45 +422,102 @@ var ruleCtxZone = &Rule{
 			if ctxP == nil {
 				continue
 			}
-			isCtxLoc := func(v ssa.Value) bool {
-				c, ok := v.(*ssa.Call)
-				if !ok || c.Call.StaticCallee() == nil || c.Call.StaticCallee().Name() != "TZFromContext" || fnPkgPath(c.Call.StaticCallee()) != pkgTypes {
-					return false
+			// values of an unexported helper of the package are read through
+			// the arguments the method hands it (`wallClockIn(ctx, t)`,
+			// `wallClock(t, TZFromContext(ctx))`)
+			type bindT map[*ssa.Parameter]ssa.Value
+			resolve := func(v ssa.Value, binds []bindT) ssa.Value {
+				for i := len(binds) - 1; i >= 0; i-- {
+					q, ok := v.(*ssa.Parameter)
+					if !ok {
+						break
+					}
+					nv, ok := binds[i][q]
+					if !ok {
+						break
+					}
+					v = nv
 				}
-				return len(c.Call.Args) == 1 && c.Call.Args[0] == ssa.Value(ctxP)
+				return v
+			}
+			var isCtxLoc func(v ssa.Value, binds []bindT) bool
+			isCtxLoc = func(v ssa.Value, binds []bindT) bool {
+				// the helper's own TZFromContext(its ctx), or the location it was handed
+				for i := len(binds); i >= 0; i-- {
+					c, ok := v.(*ssa.Call)
+					if ok && c.Call.StaticCallee() != nil && c.Call.StaticCallee().Name() == "TZFromContext" && fnPkgPath(c.Call.StaticCallee()) == pkgTypes && len(c.Call.Args) == 1 {
+						return resolve(c.Call.Args[0], binds[:i]) == ssa.Value(ctxP)
+					}
+					q, isP := v.(*ssa.Parameter)
+					if !isP || i == 0 {
+						return false
+					}
+					nv, has := binds[i-1][q]
+					if !has {
+						return false
+					}
+					v = nv
+				}
+				return false
 			}
 			consults, placed := 0, 0
 			ord := 0
-			for _, b := range fn.Blocks {
-				for _, ins := range b.Instrs {
-					c, ok := ins.(*ssa.Call)
-					if !ok {
-						continue
-					}
-					var loc ssa.Value
-					what := ""
-					switch calleeQualified(&c.Call) {
-					case "time.Date":
-						loc, what = c.Call.Args[len(c.Call.Args)-1], "time.Date"
-					case "time.In":
-						loc, what = c.Call.Args[len(c.Call.Args)-1], "Time.In"
-					default:
-						continue
-					}
-					n++
-					ord++
-					key := fmt.Sprintf("%s: location of %s #%d", fnName(fn), what, ord)
-					if isCtxLoc(loc) {
-						consults++
-						if what == "time.Date" {
-							placed++
+			var scan func(h *ssa.Function, binds []bindT, depth int)
+			scan = func(h *ssa.Function, binds []bindT, depth int) {
+				for _, b := range h.Blocks {
+					for _, ins := range b.Instrs {
+						c, ok := ins.(*ssa.Call)
+						if !ok {
+							continue
 						}
-						out.ok(key, p.pos(c.Pos()), fnName(fn), "TZFromContext(ctx) itself")
-					} else {
-						out.viol(key, p.pos(c.Pos()), fnName(fn), "the wall-clock fields are interpreted in a location that is not the context's zone itself ("+trunc(loc.String(), 60)+"): around daylight-saving changes the offset of a different instant is applied")
+						var loc ssa.Value
+						what := ""
+						switch calleeQualified(&c.Call) {
+						case "time.Date":
+							loc, what = c.Call.Args[len(c.Call.Args)-1], "time.Date"
+						case "time.In":
+							loc, what = c.Call.Args[len(c.Call.Args)-1], "Time.In"
+						default:
+							// an unexported helper of the package that is handed
+							// the context or a location
+							g := c.Call.StaticCallee()
+							if g == nil || c.Call.IsInvoke() || depth >= 2 || fnPkgPath(g) != pkgTypes || g.Blocks == nil || g.Object() == nil || g.Object().Exported() || g == h {
+								continue
+							}
+							takes := false
+							bind := bindT{}
+							for i, a := range c.Call.Args {
+								if i < len(g.Params) {
+									bind[g.Params[i]] = a
+									if isContextType(a.Type()) {
+										takes = true
+									}
+									if nn := namedOf(a.Type()); nn != nil && nn.Obj().Name() == "Location" {
+										takes = true
+									}
+								}
+							}
+							if takes {
+								scan(g, append(append([]bindT{}, binds...), bind), depth+1)
+							}
+							continue
+						}
+						n++
+						ord++
+						key := fmt.Sprintf("%s: location of %s #%d", fnName(fn), what, ord)
+						if isCtxLoc(loc, binds) {
+							consults++
+							if what == "time.Date" {
+								placed++
+							}
+							out.ok(key, p.pos(c.Pos()), fnName(fn), "TZFromContext(ctx) itself")
+						} else {
+							out.viol(key, p.pos(c.Pos()), fnName(fn), "the wall-clock fields are interpreted in a location that is not the context's zone itself ("+trunc(loc.String(), 60)+"): around daylight-saving changes the offset of a different instant is applied")
+						}
 					}
 				}
 			}
+			scan(fn, nil, 0)
 			// zone-less receiver → zone-aware result must consult the context zone
 			recv := namedOf(fn.Signature.Recv().Type())
 			res := fn.Signature.Results()
